@@ -25,7 +25,13 @@ QUOTAS = ['hare', 'hare_rounded', 'droop', 'hagenbach_bischoff', 'hagenbach_bisc
           'hagenbach_bischoff_rounded', 'imperiali']
 POLICIES = ['error', 'ignore', 'subtract']
 
-REQUIRED = []           # filled in below (kept next to the theorem list)
+REQUIRED = ['quota_textbook_hare', 'quota_textbook_hagenbach_bischoff', 'quota_textbook_imperiali', 'quota_textbook_droop',
+            'quota_textbook_hagenbach_bischoff_ceil', 'quota_round_half_up', 'quota_textbook_hare_rounded',
+            'quota_textbook_hagenbach_bischoff_rounded', 'quota_droop_pos', 'quota_droop_least',
+            'qd_whole_quotas', 'wholeSel_get', 'qd_no_overaward', 'qd_policy_error', 'qd_policy_ignore',
+            'qd_policy_subtract_total',
+            'lr_whole_then_remainders', 'lr_floor_plus_01', 'lr_extra_only_eligible', 'lr_largest_remainders',
+            'lr_tie_shape', 'lr_total']
 REQUIRED_COUNTERS = ['policy_error', 'policy_ignore', 'policy_subtract', 'subtract_tie', 'cap_binds', 'cap_with_prev',
                      'cap_remainder_only', 'remainder_tie', 'accept_equal_edge', 'overaward_imperiali',
                      'overaward_hagenbach_bischoff', 'whole_exceeds_house', 'prev_nonzero', 'prev_other_party',
